@@ -58,6 +58,7 @@ type TypeSpec struct {
 	Owned     map[string]string // field -> owner lock expression (informational)
 	SubObjects map[string]string // pointer fields to objects owned by this one: field -> lock that protects them
 	AtomicCell map[string]bool   // pointer fields whose pointee is accessed only through sync/atomic
+	PartOf    string            // the invariant is established as part of this owner type's invariant (audit)
 	Rely      map[string]*SExpr // field -> relation between `old` and `new` values allowed to other goroutines
 }
 
@@ -414,6 +415,11 @@ func (sp *Specs) parseFile(repo, file string) error {
 				return fmt.Errorf("%s:%d: reveal outside func", file, pendingLine)
 			}
 			curF.Reveal = append(curF.Reveal, splitList(rest)...)
+		case "partof":
+			if curT == nil {
+				return fmt.Errorf("%s:%d: partof outside type", file, pendingLine)
+			}
+			curT.PartOf = qualify(pkg, strings.TrimSpace(rest))
 		case "guarded":
 			if curT == nil {
 				return fmt.Errorf("%s:%d: guarded outside type", file, pendingLine)
